@@ -168,16 +168,6 @@ def gen_random_payloads(ctx, n):
 def gen_wrap(ctx, n):
     rng = ctx.rng
     out = []
-    for _ in range(n):
-        roots, lines = g.rand_wrap_case(rng)
-        abbr = g.render_roots(roots)
-        starred = any(g.has_star(r) for r in roots)
-        ph = any(g.has_ph(r) for r in roots)
-        pieces = g.pieces_x(g.expect_wrap(roots, lines))
-        kind = 'wrap:' + ('implicit' if starred else 'plain') + ('+$#' if ph else '')
-        out.append(case(kind, abbr, pieces, plain({'text': lines})))
-        if any(l.strip() for l in lines):
-            ctx.nontrivial((abbr, tuple(lines)))
     # fixed shapes named in the statement
     for lines in (['ul>li*3', '$$', '{x}', '$#', '${1}'], ['  a  ', '', 'b'], [], ['', ' ']):
         nb = [l.strip() for l in lines if l.strip()]
@@ -188,6 +178,16 @@ def gen_wrap(ctx, n):
                         plain({'text': lines})))
         whole = '\n'.join(lines).strip()
         out.append(case('wrap:plain', 'ul>li', ['<ul><li>', ['T', whole] if whole else '', '</li></ul>'], plain({'text': lines})))
+    for _ in range(n):
+        roots, lines = g.rand_wrap_case(rng)
+        abbr = g.render_roots(roots)
+        starred = any(g.has_star(r) for r in roots)
+        ph = any(g.has_ph(r) for r in roots)
+        pieces = g.pieces_x(g.expect_wrap(roots, lines))
+        kind = 'wrap:' + ('implicit' if starred else 'plain') + ('+$#' if ph else '')
+        out.append(case(kind, abbr, pieces, plain({'text': lines})))
+        if any(l.strip() for l in lines):
+            ctx.nontrivial((abbr, tuple(lines)))
     return out
 
 
